@@ -56,6 +56,19 @@ SPEC_LAYOUTS = {
     ("dissect.hypervisor.disk.c_vmdk", "c_vmdk", "VMDKSparseExtentHeader"): ("<", 512, [("version", 4, 4), ("flags", 8, 4), ("capacity", 12, 8), ("grain_size", 20, 8), ("descriptor_offset", 28, 8), ("descriptor_size", 36, 8),
                                                                                         ("num_grain_table_entries", 44, 4), ("secondary_grain_directory_offset", 48, 8), ("primary_grain_directory_offset", 56, 8),
                                                                                         ("overhead", 64, 8), ("is_dirty", 72, 1), ("compress_algorithm", 77, 2)]),
+    # Hyper-V VMCX/VMRS containers and the ESXi envelope (no public specification: offsets as documented in the format notes of the
+    # module headers and used by the independent encoders of replay/hyperv_corpus.py and replay/envelope_corpus.py)
+    ("dissect.hypervisor.descriptor.c_hyperv", "c_hyperv", "HyperVStorageHeader"): ("<", 46, [("signature", 0, 4), ("checksum", 4, 4), ("sequence_number", 8, 2), ("version", 10, 4), ("alignment", 22, 4),
+                                                                                              ("replay_log_offset", 26, 8), ("replay_log_size", 34, 8), ("header_size", 42, 4)]),
+    ("dissect.hypervisor.descriptor.c_hyperv", "c_hyperv", "HyperVStorageReplayLog"): ("<", 34, [("signature", 0, 4), ("checksum", 4, 4), ("num_entries", 8, 4), ("max_entries", 13, 4)]),
+    ("dissect.hypervisor.descriptor.c_hyperv", "c_hyperv", "HyperVStorageObjectTable"): ("<", 8, [("signature", 0, 4), ("num_entries", 4, 4)]),
+    ("dissect.hypervisor.descriptor.c_hyperv", "c_hyperv", "HyperVStorageObjectTableEntry"): ("<", 18, [("type", 0, 1), ("checksum", 1, 4), ("offset", 5, 8), ("size", 13, 4), ("allocated", 17, 1)]),
+    ("dissect.hypervisor.descriptor.c_hyperv", "c_hyperv", "HyperVStorageKeyTable"): ("<", 10, [("signature", 0, 2), ("index", 2, 2), ("sequence_number", 4, 2), ("checksum", 6, 4)]),
+    ("dissect.hypervisor.descriptor.c_hyperv", "c_hyperv", "HyperVStorageKeyTableEntryHeader"): ("<", 21, [("type", 0, 2), ("size", 2, 4), ("parent_table_idx", 6, 2), ("parent_offset", 8, 4), ("checksum", 12, 4),
+                                                                                                           ("insertion_sequence", 16, 4), ("data_offset", 20, 1)]),
+    ("dissect.hypervisor.util.envelope", "c_envelope", "EnvelopeFileHeader"): ("<", 512, [("size", 504, 4), ("version", 508, 4)]),
+    ("dissect.hypervisor.util.envelope", "c_envelope", "DataTransformAeadFooter"): ("<", 4096, [("size", 4088, 4), ("version", 4092, 4)]),
+    ("dissect.hypervisor.util.envelope", "c_envelope", "DataTransformCryptoFooter"): ("<", 512, [("padding", 504, 4), ("version", 508, 4)]),
 }
 BYTES_FIELDS = {("c_vhdx", "header"): [("signature", 0, 4), ("file_write_guid", 16, 16), ("data_write_guid", 32, 16), ("log_guid", 48, 16)], ("c_vhdx", "region_table_entry"): [("guid", 0, 16)],
                 ("c_vhdx", "metadata_table_entry"): [("item_id", 0, 16)], ("c_vhdx", "parent_locator_header"): [("locator_type", 0, 16)], ("c_vhd", "footer"): [("cookie", 0, 8), ("unique_id", 68, 16)],
@@ -88,6 +101,17 @@ SPEC_CONSTANTS = {
                (None, "PHYSICAL_SECTOR_SIZE_GUID"): "cda348c7-445d-4471-9cc9-e9885251c556", (None, "PARENT_LOCATOR_GUID"): "a8d35f2d-b30b-454d-abf7-d3d84834ab0c", (None, "VHDX_PARENT_LOCATOR_GUID"): "b04aefb7-d19e-4a81-b789-25b8e9445913"},
     "c_vhd": {(None, "SECTOR_SIZE"): 512},
     "c_vdi": {(None, "VDI_SIGNATURE"): 0xBEDA107F, (None, "UNALLOCATED"): -1, (None, "SPARSE"): -2},
+    "c_hyperv": {("cs", "SIGNATURE_STORAGE_HEADER"): 0x01282014, ("cs", "FIRST_HEADER_OFFSET"): 0, ("cs", "SECOND_HEADER_OFFSET"): 0x1000, ("cs", "SIGNATURE_REPLAY_LOG_HEADER"): 0x01110003,
+                 ("cs", "SIGNATURE_OBJECT_TABLE_HEADER"): 0x01110001, ("cs", "OBJECT_TABLE_OFFSET"): 0x2000, ("cs", "SIGNATURE_KEY_TABLE_HEADER"): 2,
+                 ("enum", "ObjectEntryType.ObjectTable"): 1, ("enum", "ObjectEntryType.KeyTable"): 2, ("enum", "ObjectEntryType.File"): 3, ("enum", "ObjectEntryType.Free"): 4, ("enum", "ObjectEntryType.ReplayLog"): 6,
+                 ("enum", "ObjectEntryType.ChangeTrackingBuffer"): 7, ("enum", "KeyDataType.Free"): 1, ("enum", "KeyDataType.Unknown"): 2, ("enum", "KeyDataType.Int"): 3, ("enum", "KeyDataType.UInt"): 4,
+                 ("enum", "KeyDataType.Double"): 5, ("enum", "KeyDataType.String"): 6, ("enum", "KeyDataType.Array"): 7, ("enum", "KeyDataType.Bool"): 8, ("enum", "KeyDataType.Node"): 9, ("enum", "KeyDataFlag.FileObjectPointer"): 1},
+    "c_envelope": {("enum", "AttributeType.Invalid"): 0, ("enum", "AttributeType.UInt8"): 1, ("enum", "AttributeType.UInt16"): 2, ("enum", "AttributeType.UInt32"): 3, ("enum", "AttributeType.UInt64"): 4,
+                   ("enum", "AttributeType.Int8"): 5, ("enum", "AttributeType.Int16"): 6, ("enum", "AttributeType.Int32"): 7, ("enum", "AttributeType.Int64"): 8, ("enum", "AttributeType.Float"): 9,
+                   ("enum", "AttributeType.Double"): 10, ("enum", "AttributeType.String"): 11, ("enum", "AttributeType.Bytes"): 12, (None, "FILE_HEADER_MAGIC"): b"DataTransformEnvelope",
+                   (None, "FOOTER_AEAD_MAGIC"): b"DataTransformAeadFooter", (None, "FOOTER_CRYPTO_MAGIC"): b"DataTransformCryptoFooter", (None, "ENVELOPE_BLOCK_SIZE"): 4096,
+                   ("typemap", "UInt8"): 1, ("typemap", "UInt16"): 2, ("typemap", "UInt32"): 4, ("typemap", "UInt64"): 8, ("typemap", "Int8"): 1, ("typemap", "Int16"): 2, ("typemap", "Int32"): 4, ("typemap", "Int64"): 8,
+                   ("typemap", "Float"): 4, ("typemap", "Double"): 8},
     "c_hdd": {("cs", "SIGNATURE_STRUCTURED_DISK_V1"): b"WithoutFreeSpace", ("cs", "SIGNATURE_STRUCTURED_DISK_V2"): b"WithouFreSpacExt", ("cs", "SIGNATURE_DISK_IN_USE"): 0x746F6E59, ("cs", "SECTOR_LOG"): 9, (None, "SECTOR_SIZE"): 512},
 }
 
@@ -102,12 +126,18 @@ def check_constants(rep, pid):
         name = f"constants:{cname}"
         why = []
         try:
-            mod = importlib.import_module("dissect.hypervisor.disk." + cname)
+            mod = importlib.import_module(CONST_MODULES.get(cname, "dissect.hypervisor.disk." + cname))
             cs = getattr(mod, cname)
             for (where, const), want in table.items():
-                have = getattr(cs if where == "cs" else mod, const, None)
-                if have is None and where == "cs":
-                    have = getattr(cs, "consts", {}).get(const)
+                if where == "enum":
+                    en, member = const.split(".")
+                    have = int(getattr(getattr(cs, en), member).value)
+                elif where == "typemap":  # width in bytes of the cstruct type an attribute type is read with
+                    have = len(mod.ENVELOPE_ATTRIBUTE_TYPE_MAP[getattr(cs.AttributeType, const)])
+                else:
+                    have = getattr(cs if where == "cs" else mod, const, None)
+                    if have is None and where == "cs":
+                        have = getattr(cs, "consts", {}).get(const)
                 norm = str(have).lower() if isinstance(want, str) else (bytes(have) if isinstance(want, bytes) and have is not None else have)
                 n += 1
                 if norm != want:
@@ -122,8 +152,25 @@ def check_constants(rep, pid):
     rep.functions.append({"function": (", ".join(x + ".py" for x in only) if only else "c_*.py") + " (constants)", "contract": f"{n} masks, flags, states, magics and sizes equal the specification", "props": [pid]})
 
 
-LAYOUT_PROPS = {"C01": ("c_qcow2",), "C02": ("c_vmdk",), "C03": ("c_vhdx",), "C04": ("c_vhd",), "C05": ("c_vdi",), "C06": ("c_hdd",), "C07": ("c_vhdx", "c_vdi", "c_hdd", "c_vmdk", "c_qcow2"),
+CONST_MODULES = {"c_hyperv": "dissect.hypervisor.descriptor.c_hyperv", "c_envelope": "dissect.hypervisor.util.envelope"}
+LAYOUT_PROPS = {"C12": ("c_qcow2", "c_vmdk", "c_vhdx", "c_vhd", "c_vdi", "c_hdd", "c_hyperv", "c_envelope"), "C16": ("c_envelope",), "C17": ("c_hyperv",), "C01": ("c_qcow2",), "C02": ("c_vmdk",), "C03": ("c_vhdx",), "C04": ("c_vhd",), "C05": ("c_vdi",), "C06": ("c_hdd",), "C07": ("c_vhdx", "c_vdi", "c_hdd", "c_vmdk", "c_qcow2"),
                 "C13": ("c_qcow2", "c_vmdk", "c_vhdx", "c_vhd", "c_vdi", "c_hdd"), "C14": None}
+
+
+def check_extent_capture(rep, pid):
+    """the extent-line pattern of the VMDK descriptor uses greedy quantifiers only: the exposed file name is the whole quoted name"""
+    from pyvc import regexlang as R
+
+    vm = importlib.import_module("dissect.hypervisor.disk.vmdk")
+    lazy = R.lazy_quantifiers(vm.RE_EXTENT_DESCRIPTOR.pattern, vm.RE_EXTENT_DESCRIPTOR.flags)
+    name = "vmdk:RE_EXTENT_DESCRIPTOR/capture.all_quantifiers_greedy"
+    rep.obligations[name] = {"verdict": "discharged" if not lazy else "undischarged", "atoms": 1, "ms": 0, "backends": {"set-inclusion"}, "stages": set(), "line": 0, "props": [pid]}
+    if lazy:
+        w = 'RW 16 FLAT "my "old" disk-f001.vmdk" 0'
+        mt = vm.RE_EXTENT_DESCRIPTOR.search(w)
+        got = mt.groupdict().get("filename") if mt else None
+        p = driver.write_replay(pid, name, {"property": pid, "obligation": name, "lazy_quantifiers": lazy, "witness_line": w, "captured_filename": got, "verifier_output": f"{len(lazy)} lazy quantifier(s) in RE_EXTENT_DESCRIPTOR"})
+        rep.violations.append((p, f"RE_EXTENT_DESCRIPTOR has lazy quantifiers {lazy}; line {w!r} exposes the file name {got!r}", got == '"my "old" disk-f001.vmdk"'))
 
 
 def check_layouts(rep, pid):
@@ -690,7 +737,7 @@ def extra_checks(rep, pid, ledger, known):
             check_layouts(rep, pid)
             check_constants(rep, pid)
         return
-    for fn in (check_layouts, check_constants, check_read_extensions, check_vhdx, check_vmdk, check_hdd_xml):
+    for fn in (check_layouts, check_constants, check_extent_capture, check_read_extensions, check_vhdx, check_vmdk, check_hdd_xml):
         try:
             fn(rep, pid)
         except (Unsupported, StopIteration) as e:
